@@ -49,7 +49,7 @@ enum Kind {
 enum GOp {
     Transfer { from: usize, to: usize },
     TransferFrom { from: usize, to: usize },
-    Approve { o: usize },
+    Approve { o: usize, a: i128 },
     Burn { from: usize },
     BurnFrom { from: usize },
     Mint { to: usize },
@@ -101,7 +101,7 @@ impl Gated {
         Some(match op {
             GOp::Transfer { from, to } => ("transfer", (i.a(*from), i.a(*to), 1i128).into_val(e), i.a(*from)),
             GOp::TransferFrom { from, to } => ("transfer_from", (s.clone(), i.a(*from), i.a(*to), 1i128).into_val(e), s),
-            GOp::Approve { o } => ("approve", (i.a(*o), s.clone(), 2i128, 5000u32).into_val(e), i.a(*o)),
+            GOp::Approve { o, a } => ("approve", (i.a(*o), s.clone(), *a, 5000u32).into_val(e), i.a(*o)),
             GOp::Burn { from } => {
                 if self.kind == Kind::BlockExample {
                     return None;
@@ -235,7 +235,10 @@ impl World for Gated {
             v.push(GOp::BurnFrom { from });
         }
         for o in 0..3 {
-            v.push(GOp::Approve { o });
+            // amount 0 too: revoking an allowance is an approval like any other
+            for a in [2i128, 0] {
+                v.push(GOp::Approve { o, a });
+            }
         }
         v.push(GOp::Mint { to: 0 });
         v.push(GOp::Mint { to: 1 });
@@ -317,9 +320,9 @@ impl World for Gated {
                 x.bal[*to] += 1;
                 x.allow[*from] -= 1;
             }
-            GOp::Approve { o } => {
+            GOp::Approve { o, a } => {
                 vet(*o, "owner")?;
-                x.allow[*o] = 2;
+                x.allow[*o] = *a;
             }
             GOp::Burn { from } => {
                 vet(*from, "holder")?;
